@@ -94,11 +94,12 @@ MONITOR = "vlib.monitors.masterworker"
 # scripted alphabet ------------------------------------------------------------------------------
 DYING = ["die0", "die-delay", "close", "raise"]
 SENDING = ["send-ok", "send-err", "send-die"]
-EXTRA_DYING = ["sigkill", "partial-die", "close-linger", "real-die", "real-kbd", "real-sysexit"]
+EXTRA_DYING = ["sigkill", "partial-die", "close-linger", "die-orphan", "real-die", "real-kbd", "real-sysexit"]
+HANGS = ["hang", "orphan-hang"]
 EXTRA_SENDING = ["send-nogen", "real-ok", "real-raise"]
 TERMINAL = set(SENDING) | set(EXTRA_SENDING)
 DELIVERS_OK = {"send-ok", "send-die", "real-ok"}
-ALL_STEPS = DYING + SENDING + EXTRA_DYING + EXTRA_SENDING + ["hang"]
+ALL_STEPS = DYING + SENDING + EXTRA_DYING + EXTRA_SENDING + HANGS
 TIMES = [-1, 0, 1, 2, 3, 5]
 
 
@@ -110,7 +111,7 @@ def floors(tier):
     classes = {
         # (the restart-dependent floors are low on purpose: on a loaded machine a worker needs longer to die, so fewer
         #  restarts fit into the same wall-clock budget)
-        "real:restarted": 12 * k,
+        "real:restarted": 12 * (1 if tier == "quick" else 3),
         "real:restart-refused:no-search-time": 20,
         "real:restart-refused:time-exhausted": 10,
         "real:ok-after-restart": 6,
@@ -123,7 +124,7 @@ def floors(tier):
         "scripted:ok-delivered": 150,
         "scripted:nonok-nothing-delivered": 300,
         "scripted:restarts=4": 20,
-        "scripted:hang": 2,
+        "scripted:hang": 4,
     }
     for p in PHASES:
         classes[f"real:phase={p}"] = 9
@@ -138,7 +139,7 @@ def floors(tier):
     for t in TIMES:
         classes[f"scripted:T={t}"] = 30
     for s in ALL_STEPS:
-        classes[f"scripted:step-reached={s}"] = 2 if s == "hang" else 5
+        classes[f"scripted:step-reached={s}"] = 2 if s in HANGS else 5
     return {"evals": 3000 + 1500 * (k - 1), "distinct": 1100 + 500 * (k - 1), "classes": classes}
 
 
@@ -157,7 +158,10 @@ def real_directed_cases():
     for b in BUDGETS:
         for p in PHASES:
             for n in NS:
-                cases.append({"phase": p, "n": n, "budget_kind": b, "budget": dict(BUDGETS[b]), "module": "tri",
+                budget = dict(BUDGETS[b])
+                if b == "time+iter" and n != 99:
+                    budget["maximum_search_time"] = 45  # the late phases must be reachable with time to spare on a loaded machine
+                cases.append({"phase": p, "n": n, "budget_kind": b, "budget": budget, "module": "tri",
                               "algorithm": "DYNAMOSA", "seed": 11, "assertion_generation": "NONE", "minimize": False})
     return cases
 
@@ -222,8 +226,9 @@ def scripted_directed_cases():
             cases.append({"script": ["die0", st], "then": "send-err", "T": t, "delay": 0.3, "tag": "extra"})
         if st in EXTRA_DYING:
             cases.append({"script": [st], "then": "repeat", "T": 3, "delay": 0.3, "tag": "extra"})
-    for t in (5, -1):
-        cases.append({"script": ["die0", "hang"] if t > 0 else ["hang"], "then": "send-ok", "T": t, "delay": 0.3, "tag": "hang"})
+    for h in HANGS:
+        for t in (5, -1):
+            cases.append({"script": ["die0", h] if t > 0 else [h], "then": "send-ok", "T": t, "delay": 0.3, "tag": "hang"})
     return cases
 
 
@@ -281,7 +286,7 @@ def plan(tier, seed):
         from vlib import sut_corpus
 
         more = []
-        for rep in range(3):
+        for rep in range(2):
             for c in real_directed_cases():
                 c = dict(c)
                 c["module"] = rng.choice(sut_corpus.ALL)
@@ -291,8 +296,8 @@ def plan(tier, seed):
                 if c["budget_kind"] == "time":
                     c["budget"] = {"maximum_search_time": rng.randint(6, 10)}
                 more.append(c)
-        more += real_random_cases(seed + 17, 81)
-        for i, chunk in enumerate(_balance(more, 40)):
+        more += real_random_cases(seed + 17, 40)
+        for i, chunk in enumerate(_balance(more, 32)):
             specs.append({"name": "real-random", "part": i, "cases": chunk})
     return specs
 
@@ -423,7 +428,8 @@ def run_real_case(ctx, case, proj, idx, seeded_break=None):
                     f"(budget {case['budget']}, {len(crashes)} injected crash(es), last phase reached: {last})", c)
         return
     if len(attempts) > 1:
-        ctx.anomaly("watchdog-not-reproduced")
+        ctx.anomaly("watchdog-not-reproduced:real")
+        ctx.extra.setdefault("watchdog_retries", []).append({"case": case, "attempts": attempts})
     if res.get("exception"):
         ctx.inconclusive_because(f"{label}: driver failed: {res['exception']} :: {res.get('stderr_tail', '')[-300:]}")
         return
@@ -535,6 +541,17 @@ def _stub_worker_main(task, sending_connection):
         _wlog(f"{pid} {idx} hang {step}")
         while True:
             time.sleep(60)
+    if step in ("die-orphan", "orphan-hang"):
+        # the worker dies, but a descendant (like a daemon process of SubprocessTestCaseExecutor, which inherits every
+        # descriptor on fork) still holds the write end of the result pipe for a while / for ever
+        gpid = os.fork()
+        if gpid == 0:
+            time.sleep(0.6 if step == "die-orphan" else 3600)
+            os._exit(0)
+        _wlog(f"{pid} {idx} orphan {gpid}")
+        if step == "orphan-hang":
+            _wlog(f"{pid} {idx} hang {step}")
+        os._exit(3)
     if step in ("send-ok", "send-die", "send-nogen", "send-err"):
         if step == "send-err":
             res = w.WorkerResult(task_id=task.task_id, worker_return_code=w.WorkerReturnCode.OK, return_code=None,
@@ -635,13 +652,22 @@ def scripted_child(spec_path, out_path):
             rec["wall"] = round(time.time() - t0, 3)
             left = 0
             for p in mp.active_children():
-                left += 1
                 try:
-                    p.kill()
-                    p.join(2)
+                    p.join(0.5)  # a worker that has just sent its result may still be exiting
+                    if p.is_alive():
+                        left += 1
+                        p.kill()
+                        p.join(2)
                 except Exception:  # noqa: BLE001
                     pass
             rec["leftover_workers"] = left
+            for ln in _read(log).splitlines():  # descendants of dead workers (die-orphan / orphan-hang)
+                parts = ln.split()
+                if len(parts) == 4 and parts[2] == "orphan":
+                    try:
+                        os.kill(int(parts[3]), signal.SIGKILL)
+                    except (OSError, ValueError):
+                        pass
             events.append(mon.calls_event(state))
             rec["events"] = list(events)
             rec["final_mst"] = cfg.stopping.maximum_search_time
@@ -654,7 +680,7 @@ def scripted_child(spec_path, out_path):
 # (b) parent side
 # =================================================================================================
 def _bound(case, factor=1):
-    if "hang" in case["script"] or case["then"] == "hang":
+    if set(HANGS) & set(case["script"]) or case["then"] in HANGS:
         return 4.0
     return (max(case["T"], 0) + 20) * factor
 
@@ -764,12 +790,12 @@ def judge_scripted(ctx, case, rec):
     hung = [x for x in wl if x[2] == "hang"]
     events = rec.get("events", [])
     if rec.get("first_attempt_timed_out") and not rec.get("timeout"):
-        ctx.anomaly("watchdog-not-reproduced")
+        ctx.anomaly("watchdog-not-reproduced:scripted")
+        ctx.extra.setdefault("watchdog_retries", []).append({"case": dict(c), "second_wall": rec.get("wall")})
     if rec.get("timeout"):
         if hung:
-            ctx.anomaly("master-blocks-on-hung-worker")
-            ctx.ok(cls=["scripted:hang", "scripted:step-reached=hang"] + [f"scripted:step-reached={s}" for s in set(reached) - {"hang"}],
-                   distinct={"w": "scripted", **c})
+            ctx.anomaly("master-blocks-on-orphan-of-dead-worker-holding-the-pipe" if hung[-1][3] == "orphan-hang" else "master-blocks-on-hung-worker")
+            ctx.ok(cls=["scripted:hang"] + [f"scripted:step-reached={s}" for s in set(reached)], distinct={"w": "scripted", **c})
             # the restart rules still apply to what happened before the hang
             check_protocol(ctx, "scripted", c, {"events": events, "rc": None, "timeout": True, "delivered_ok": False, "delivered_any": False}, label)
             return
